@@ -236,6 +236,33 @@ def accessor_codes(name):
     return _code_cache[name]
 
 
+def owner_codes(slot_path):
+    """For state that lives on a function itself (a mutable default value, a function attribute): the code of that
+    function - the preemption points inside it are the ones that matter, and no global name refers to the slot."""
+    import sys
+    import types
+    for marker in (".<default ", ".<kwdefault ", ".<attr "):
+        if marker in slot_path:
+            head = slot_path.split(marker)[0]
+            parts = head.split(".")
+            for cut in range(len(parts), 0, -1):
+                mod = sys.modules.get(".".join(parts[:cut]))
+                if mod is None:
+                    continue
+                obj = mod
+                try:
+                    for name in parts[cut:]:
+                        obj = getattr(obj, name)
+                except AttributeError:
+                    break
+                fn = getattr(obj, "__func__", obj)
+                code = getattr(fn, "__code__", None)
+                if isinstance(code, types.CodeType):
+                    return {code}
+                break
+    return set()
+
+
 def container_path(slot_path):
     """The tracked container a slot belongs to (longest registered path that prefixes it)."""
     best = None
